@@ -152,6 +152,9 @@ pub struct Shared {
     pub script: Option<RefCell<std::collections::VecDeque<SolvingResult>>>,
 }
 
+/// Upper bound on the number of solve calls per `Shared` (per case); unlimited unless a mode sets it.
+pub static SOLVE_BUDGET: std::sync::atomic::AtomicUsize = std::sync::atomic::AtomicUsize::new(usize::MAX);
+
 /// A SatSolver that forwards to CaDiCaL and records every interaction.
 pub struct Recording {
     inner: Box<dyn SatSolver>,
@@ -179,6 +182,10 @@ impl SatSolver for Recording {
             *n += 1;
             *n - 1
         };
+        if k >= SOLVE_BUDGET.load(std::sync::atomic::Ordering::Relaxed) {
+            // a run-away enumeration loop in the code under test: reported as a panic of the call
+            panic!("solve budget of the harness exceeded");
+        }
         let r = if let Fault::UnknownAt(f) = self.sh.fault {
             if f == k {
                 SolvingResult::Unknown
